@@ -35,7 +35,7 @@ var permTags = []string{
 	"-", "-:all",
 }
 
-var autoPermTags = []string{"", "", "", "", "", "", "<-:create", "<-:update", "<-:false", "->", "-"}
+var autoPermTags = []string{"", "", "", "", "", "<-:create", "<-:create", "->;<-:create", "<-:update", "<-:false", "->", "-"}
 
 type autoVariant struct {
 	Name, Auto, Tag string
@@ -561,7 +561,10 @@ func genHistory(rt *rapid.T, m *model, o *op) {
 	h.Context = rapid.IntRange(0, 5).Draw(rt, "context") == 0
 	h.Scopes = o.Cond != nil && rapid.IntRange(0, 3).Draw(rt, "scopes") == 0
 	h.SelectSlice = o.Select != nil && rapid.IntRange(0, 2).Draw(rt, "selectslice") == 0
-	h.OmitComma = len(o.Omit) > 1 && rapid.IntRange(0, 2).Draw(rt, "omitcomma") == 0
+	if len(o.Omit) > 1 && rapid.Bool().Draw(rt, "omitcomma") {
+		// Omit("a, b"): one comma separated string, blanks around the commas (documented form: Omit("name, age"))
+		h.OmitSep = rapid.SampledFrom([]string{",", ", ", ", ", ",  ", ",   ", " , "}).Draw(rt, "omitsep")
+	}
 	update := false
 	switch o.Kind {
 	case "updates-struct", "updatecolumns-struct", "updates-map", "updatecolumns-map", "update", "updatecolumn":
@@ -686,7 +689,7 @@ func genCreate(rt *rapid.T, m *model, o *op) string {
 		switch k := rapid.IntRange(0, 5).Draw(rt, "newkey"); {
 		case k <= 1 && m.NK == 1:
 			row.PK = 0
-		case k <= 3 || !hit || len(free) == 0:
+		case k <= 2 || !hit || len(free) == 0:
 			row.PK = 100 + int64(r)
 			if m.NK == 2 {
 				row.PK2 = m.revValue(int64(rapid.IntRange(0, 3).Draw(rt, "newrev")))
@@ -1034,8 +1037,8 @@ func exec(db *gorm.DB, m *model, o *op) error {
 		}
 	}
 	if o.Omit != nil {
-		if o.Hist.OmitComma {
-			tx = tx.Omit(strings.Join(o.Omit, ","))
+		if o.Hist.OmitSep != "" {
+			tx = tx.Omit(strings.Join(o.Omit, o.Hist.OmitSep))
 		} else {
 			tx = tx.Omit(o.Omit...)
 		}
@@ -1334,7 +1337,7 @@ func analyse(m *model, o *op, selForm string) caseInfo {
 			name string
 		}{{h.Handle != "", "history:" + h.Handle}, {h.Decoy, "history:session-parent+decoys"}, {h.Context, "history:with-context"},
 			{h.Scopes, "history:cond-via-scopes"}, {h.SkipHooks, "history:Session{SkipHooks}"}, {h.Returning, "clause:Returning"},
-			{h.SelectSlice, "select-arg:[]string"}, {h.OmitComma, "omit-arg:comma-string"}, {o.Form != "", "form:" + o.Form}, {o.KeysPtr, "form:model-[]*T"},
+			{h.SelectSlice, "select-arg:[]string"}, {h.OmitSep != "", "omit-arg:comma-string"}, {strings.Contains(h.OmitSep, " "), "omit-arg:comma-string-with-blanks"}, {o.Form != "", "form:" + o.Form}, {o.KeysPtr, "form:model-[]*T"},
 			{o.SetCol != nil, "callback:SetColumn"}, {m.SkipDefaultTx, "config:SkipDefaultTransaction"}, {m.PrepareStmt, "config:PrepareStmt"},
 			{m.CreateBatchSize > 0, "config:CreateBatchSize"}, {len(o.Rows) > 4, "size:batch>4"}} {
 			if x.on {
@@ -1389,46 +1392,6 @@ func saveConditionMiss(before *table, o *op) bool {
 	return ok && !o.Cond.matches(row)
 }
 
-// doNothingUnreadableDefault: batch create that may end in ON CONFLICT DO NOTHING (explicit, or an
-// UpdateAll with nothing to update) on a RETURNING dialect over a model with an unreadable
-// database-default column (open finding: gorm.Scan panics).
-func doNothingUnreadableDefault(m *model, o *op) bool {
-	if m.NoRet || (o.Kind != "create-slice" && o.Kind != "create-batches" && o.Kind != "save-slice") {
-		return false
-	}
-	if o.Kind != "save-slice" && o.Conflict != "nothing" && o.Conflict != "updateall" {
-		return false
-	}
-	for _, f := range m.Fields {
-		if f.DBDefault != "" && strings.HasPrefix(f.Perm, "->:false") {
-			return true
-		}
-	}
-	return false
-}
-
-// returningSingleUnreadableDefault: a struct create (or a Save, which may insert) on a RETURNING dialect
-// whose RETURNING list is exactly one column without read permission (open finding: "unsupported Scan").
-// Only composite-key models qualify: an auto-increment key is always a second RETURNING column.
-func returningSingleUnreadableDefault(m *model, o *op) bool {
-	if m.NoRet || m.NK != 2 {
-		return false
-	}
-	switch o.Kind {
-	case "create", "create-slice", "create-batches", "save-slice", "save":
-	default:
-		return false
-	}
-	n, unreadable := 0, false
-	for _, f := range m.Fields {
-		if known, _, _ := f.perms(); known && f.DBDefault != "" {
-			n++
-			unreadable = strings.HasPrefix(f.Perm, "->:false")
-		}
-	}
-	return n == 1 && unreadable
-}
-
 func checkCase(rt *rapid.T, m *model, o *op, selForm string) {
 	desc := m.String() + " :: " + o.render(m)
 	evid.Journal(desc)
@@ -1440,19 +1403,6 @@ func checkCase(rt *rapid.T, m *model, o *op, selForm string) {
 	}
 	if saveConditionMiss(before, o) && harness.OpenClass("C10", "save-condition-miss") {
 		evid.Excluded("save-condition-miss")
-		return
-	}
-	if returningSingleUnreadableDefault(m, o) && harness.OpenClass("C10", "returning-single-unreadable-default") {
-		evid.Excluded("returning-single-unreadable-default")
-		return
-	}
-	if o.Kind == "create-maps" && !m.NoRet && m.CreateBatchSize > 0 && harness.OpenClass("C10", "create-maps-returning") {
-		// (the non-pointer form of the finding is never generated: create-maps passes &[]map)
-		evid.Excluded("create-maps-returning")
-		return
-	}
-	if doNothingUnreadableDefault(m, o) && harness.OpenClass("C10", "donothing-unreadable-default") {
-		evid.Excluded("donothing-unreadable-default")
 		return
 	}
 	p := predict(m, before, o)
